@@ -382,11 +382,18 @@ func (cs *Contracts) loadContractText(text, path, pkgPath string) error {
 			}
 			switch what {
 			case "invariant":
+				// optional property scope: loop N invariant @C20 expr
+				var itags []string
+				for strings.HasPrefix(body, "@") {
+					w := firstWord(body)
+					itags = append(itags, w[1:])
+					body = strings.TrimSpace(body[len(w):])
+				}
 				e, err := parseExpr(body)
 				if err != nil {
 					return fail("%v", err)
 				}
-				ls.Invariants = append(ls.Invariants, &Clause{Kind: "invariant", Src: body, E: e, File: l.file, Line: l.line})
+				ls.Invariants = append(ls.Invariants, &Clause{Kind: "invariant", Src: body, E: e, Tags: itags, File: l.file, Line: l.line})
 			case "assume":
 				e, err := parseExpr(body)
 				if err != nil {
